@@ -103,7 +103,9 @@ static void ref_schedule(lp_id_t receiver, simtime_t ts, unsigned type, const vo
 	m->raw_flags = 0;
 	if(size)
 		memcpy(m->pl, payload, size);
-	if(ref_cur_msg && !ref_before(ref_cur_msg, m)) {
+	/* strictly after the running event, or - for another LP only - equivalent to it (neither before the other): no order is
+	 * needed between events of different LPs and the runtime's own validity check admits it */
+	if(ref_cur_msg && !ref_before(ref_cur_msg, m) && !(receiver != ref_cur_lp && !ref_before(m, ref_cur_msg))) {
 		sim_note("MODEL-BUG: event scheduled not strictly after the current one (t=%g type=%u -> t=%g type=%u)", ref_cur_msg->dest_t,
 		    ref_cur_msg->m_type, ts, type);
 		sim_finish("harness");
@@ -372,7 +374,8 @@ static void rng_ops(struct lp_state *s, uint64_t r)
 			s->libsum = mix64(s->libsum, dbits(Normal()));
 			break;
 		case 3:
-			s->libsum = mix64(s->libsum, dbits(Gamma(1 + (unsigned)((r >> 9) % 9))));
+			/* orders 1..9, sometimes +32 or +64: per-order scratch state inside the library must not leak between LPs */
+			s->libsum = mix64(s->libsum, dbits(Gamma(1 + (unsigned)((r >> 9) % 9) + (((r >> 13) & 3) ? 0 : 32 * (1 + (unsigned)((r >> 15) & 1))))));
 			break;
 		case 4:
 			s->libsum = mix64(s->libsum, Zipf(1.5, 20));
@@ -553,6 +556,14 @@ void model_dispatch(lp_id_t me, simtime_t now, unsigned type, const void *conten
 		unsigned sz2 = pick_payload(pl, mix64(r2, 4));
 		ScheduleNewEvent(me, now + inc + (inc2 > 0 ? inc2 : 0.5), nt2, pl, sz2);
 		s->skip_chain = 1;
+	}
+	if(P.m_forward && me + 1 < (lp_id_t)P.n_lps && !g_topo && (mix64(r, 31) & 7) == 0) {
+		/* a token passed on unchanged: the copy is neither before nor after the running event in the runtime's order (it goes to
+		 * another LP, so no order between the two is needed), which the runtime's own validity check admits.  Only towards
+		 * higher LP ids: a token that could come back to an LP at the same timestamp would be equivalent to its own cause
+		 * there, i.e. the model would rely on an order the runtime does not define (and Time Warp may then cycle for ever). */
+		lp_id_t n = (lp_id_t)P.n_lps;
+		ScheduleNewEvent(me + 1 + (lp_id_t)(mix64(r, 32) % (n - 1 - me)), now, type, content, size);
 	}
 	unsigned extra = P.m_fanout > 0 ? (unsigned)(mix64(r, 5) % (uint64_t)(P.m_fanout + 1)) : 0;
 	for(unsigned k = 0; k < extra; k++) {
